@@ -646,6 +646,7 @@ func Run(r *ev.Run) {
 	dirv := &alphabet{name: "directive", atoms: directiveAtoms}
 	call := &alphabet{name: "call", atoms: callAtoms}
 	jkey := &alphabet{name: "json-key", atoms: jsonKeyAtoms}
+	esc := &alphabet{name: "escape", atoms: escapeAtoms}
 
 	type job struct {
 		a       *alphabet
@@ -657,6 +658,8 @@ func Run(r *ev.Run) {
 	heredoc := wrapper{"heredoc", "a = <<E\n", "\nE\n"}
 	jsonStr := wrapper{"json-string", "{\"a\":\"", "\"}"}
 	attr := wrapper{"attribute", "a = ", "\n"}
+	label := wrapper{"block-label", "b \"", "\" {}\n"}
+	index := wrapper{"index-key", "a[\"", "\"]"}
 	var jobs []job
 	if thorough {
 		jobs = []job{
@@ -675,6 +678,10 @@ func Run(r *ev.Run) {
 			{call, 6, identity, eLexConfig | eExpr | eTraversal},
 			{call, 5, attr, eConfig},
 			{jkey, 6, identity, eJSON | eJSONExpr},
+			{esc, 4, quoted, eLexConfig | eConfig},
+			{esc, 4, label, eConfig},
+			{esc, 4, index, eExpr | eTraversal},
+			{esc, 4, jsonStr, eJSON},
 		}
 	} else {
 		jobs = []job{
@@ -693,6 +700,10 @@ func Run(r *ev.Run) {
 			{call, 5, identity, eLexConfig | eExpr | eTraversal},
 			{call, 4, attr, eConfig},
 			{jkey, 5, identity, eJSON | eJSONExpr},
+			{esc, 3, quoted, eLexConfig | eConfig},
+			{esc, 3, label, eConfig},
+			{esc, 3, index, eExpr | eTraversal},
+			{esc, 3, jsonStr, eJSON},
 		}
 	}
 
